@@ -1,7 +1,7 @@
 #!/bin/bash
 # seedcheck.sh <ID> [props...]: verify a seeded change from /tmp/seed/<ID> (patch applies, builds, suite passes,
-# demo fails with / passes without), then run the given checks (default: the property itself) against /repo with the
-# patch applied, and undo it.
+# demo fails with / passes without), then run the given checks (default: the property itself) against copies of /repo
+# (patch applied) and /verif, bind-mounted over /repo and /verif in a private mount namespace.
 set -u
 ID=$1; shift
 PROPS=${@:-${ID%%[a-z]*}}
@@ -22,7 +22,11 @@ echo "--- suite WITH patch (demo moved away):"
 go test -count=1 ./... 2>&1 | grep -v "no test files" | tail -3
 cd /verif
 git -C /repo worktree remove --force $W
-echo "--- checks against /repo with the patch:"
-git -C /repo apply $S/seed.diff || exit 2
-for p in $PROPS; do ./check $p 2>&1 | grep -v "^symgo\|^KNOWN-FINDING" | tail -4; echo "check $p rc=${PIPESTATUS[0]}"; done
-git -C /repo checkout -- . ; git -C /repo status --short | head -3
+echo "--- checks against a private view of /repo with the patch (mount namespace; /repo and /verif themselves untouched):"
+R=/tmp/sv_repo_$ID; V=/tmp/sv_verif_$ID
+rm -rf $R $V; cp -a /repo $R; rsync -a --exclude .work --exclude replays --exclude .git /verif/ $V/
+git -C $R apply $S/seed.diff || exit 2
+for p in $PROPS; do
+  unshare -m bash -c "mount --bind $R /repo && mount --bind $V /verif && cd /verif && ./check $p" 2>&1 | grep -v "^symgo\|^KNOWN-FINDING" | tail -4; echo "check $p rc=${PIPESTATUS[0]}"
+done
+rm -rf $R $V
